@@ -46,8 +46,74 @@ def check_graph(r, k, G, n, starts=None):
     r.ctr['graphs'] += 1
 
 
+def long_strand(k, G, start, m):
+    """Default walk (first live arc at every step) long enough for m isolated substitutions by a
+    nucleotide that is not an arc, one every 2k+3 positions starting at position k+1."""
+    step = 2 * k + 3
+    n = (m + 1) * step + 2 * k + 2
+    w = U.walks_dev(G, start, n, 0)[0]
+    s, v, pos = list(w), start, 0
+    sites = set(range(k + 1, k + 1 + m * step, step))
+    for i, c in enumerate(w):
+        if i in sites:
+            dead = [O.NUC[j] for j in range(4) if G[v][j] < 0]
+            if dead:
+                s[i] = dead[0]
+        v = G[v][O.NUC.index(c)]
+    return ''.join(s)
+
+
+def long_case(r, k, G, start, m, indel, heap):
+    s = long_strand(k, G, start, m)
+    acc = U.A(G)
+    st, res, loops = RP.call(s, acc, start, k, chk=None, indel=indel, heap=heap)
+    r.trans += 1
+    r.evals += 1
+    r.states += 1
+    r.nontriv += 1
+    case = dict(RP.gcase(k, G), start=start, long_sites=m, indel=indel, heap=heap)
+    if st == 'budget':
+        r.v('C10|k=%d|does-not-return|many-error-sites' % k, 'long', case, 'returns within %d loop iterations' % RP.budget(len(s), k, heap),
+            'budget exceeded with %d isolated errors on a %d-nt walk' % (m, len(s)))
+    elif st == 'exc':
+        r.v('C10|k=%d|raised-%s|many-error-sites' % (k, type(res).__name__), 'long', case, None, repr(res)[:150])
+    elif not RP.wellformed_result(res):
+        r.v('C10|k=%d|malformed-result|many-error-sites' % k, 'long', case, None, repr(res)[:150])
+    else:
+        r.maxi('long_loops', loops)
+        r.maxi('long_strand_nt', len(s))
+        r.ctr['long_fallback' if int(res[1][2]) == 0 else 'long_product'] += 1
+
+
+def _w_long(chunk):
+    r = core.Res()
+    for k, G, start, m, indel, heap in chunk:
+        long_case(r, k, G, start, m, indel, heap)
+    return r
+
+
+def long_jobs(quick):
+    from ..coder import LITERAL
+    graphs = [(2, [list(x) for x in LITERAL], 1), (1, O.from_mask({0, 1}, 1), 0), (1, O.from_mask({0, 1, 2}, 1), 2)]
+    c = O.compile_cfg((3, 2, None, ['GC']))
+    mask = {v for v in range(64) if O.seq_ok_c(c, O.kmer(v, 3))}
+    G3 = O.from_mask(O.gfp(mask, 3, 2), 3)
+    graphs.append((3, G3, sorted(O.has_arcs(G3))[0]))
+    jobs = []
+    for k, G, start in graphs:
+        for m in range(0, 131 if k <= 2 else 71):
+            for indel, heap in ((False, 1000), (True, 1000)) if (quick and m > 12) else ((False, 1000), (True, 1000), (True, 1), (False, 5000)):
+                if heap == 5000 and m > 12:
+                    continue
+                jobs.append((k, G, start, m, indel, heap))
+    return jobs
+
+
 def check_case(r, kind, case):
     G = RP.graph_of(case)
+    if kind == 'long':
+        long_case(r, case['k'], G, case['start'], case['long_sites'], case['indel'], case['heap'])
+        return
     rep_case(r, case['k'], G, U.A(G), case['start'], case['s'], case['indel'], case['chk'] is not None, case['heap'])
 
 
@@ -76,7 +142,10 @@ def run(ctx):
     items = fam + fam2 + fam3
     items.sort(key=lambda x: -(4 ** x[0]))
     ctx.pmap(_w, [(n_by_k, [c]) for c in items if c[0] >= 3] + [(n_by_k, c) for c in core.chunks_of([c for c in items if c[0] < 3], 4)])
-    ctx.bounds = {'strings': 'all ACGT strings of length k..n, n = %s' % n_by_k,
+    ctx.pmap(_w_long, core.chunks_of(long_jobs(q), 6))
+    ctx.guard('long family takes both return paths', ctx.res.ctr['long_fallback'] > 10 and ctx.res.ctr['long_product'] > 10)
+    ctx.bounds = {'long_family': 'default walks with m isolated non-arc substitutions, every m in 0..130 (k<=2) / 0..70 (k=3), default heap: the candidate product must be cut off',
+                  'strings': 'all ACGT strings of length k..n, n = %s' % n_by_k,
                   'graphs': {'order1_generated_and_arc_deviation(<=2 removed or <=3 arcs)': len(fam),
                              'order2_binary_embedding_arc_subsets': len(fam2), 'filter_generated_k2_k3': len(fam3)},
                   'starts': 'every vertex index, retained or not', 'options': str(OPTS)}
